@@ -69,7 +69,8 @@ def floors(tier):
         f.update({'subcase:judged': 250, 'probe:strong': 180, 'build:make': 100,
                   'calibration:reference-build': 450,
                   'probe:pair-vs-reference': 50, 'multi:judged': 20,
-                  'mix:judged': 10,
+                  'mix:judged': 10, 'libvar:judged': 16,
+                  'libvar:prebuilt-static-beside-shared': 4,
                   'mix:multi-then-single': 6,
                   'distinct_nontrivial': 180, 'lang:c': 120, 'lang:c++': 120})
     else:
@@ -78,7 +79,9 @@ def floors(tier):
                   'calibration:reference-build': 4000,
                   'distinct_nontrivial': 2500, 'compiler:clang': 1200,
                   'lang:c': 1200, 'lang:c++': 1200, 'lang:f95': 100,
-                  'mix:judged': 120, 'mix:multi-then-single': 60})
+                  'mix:judged': 120, 'mix:multi-then-single': 60,
+                  'libvar:judged': 60,
+                  'libvar:prebuilt-static-beside-shared': 16})
     return f
 
 
@@ -326,6 +329,9 @@ def cases(tier, seed):
     flt = os.environ.get('VERIF_C16_FILTER')      # development aid only
     if not flt or re.search(flt, 'mixlang'):
         for case in gen_mix(tier, seed):
+            yield case
+    if not flt or re.search(flt, 'libvar'):
+        for case in gen_libvar(tier, seed):
             yield case
     if flt:
         subs = [s for s in subs if re.search(flt, '%s %s %s' % (
@@ -887,6 +893,8 @@ def run_case(case):
     res = CaseResult()
     if case.get('kind') == 'mixlang':
         return run_mix(case, res)
+    if case.get('kind') == 'libvar':
+        return run_libvar(case, res)
     res.evaluations = len(case['subs'])
     found = run_project(case, res)
     seen = set()
@@ -1242,6 +1250,236 @@ def run_mix(case, res):
         else:
             res.violate(('effect-differs', 'global_options', 'mixlang',
                          'C' if diff[0].startswith('C_') else 'C++'), wit)
+        return res
+    finally:
+        core.rmtree(root)
+
+
+# --------------------------------------------------------------------------
+# which library was really linked?
+#
+# Pre-built libraries with the same name but different behaviour:
+#   pre/both/libvfv.a (1) next to pre/both/libvfv.so (2); pre/d1/libvfv.a (3);
+#   pre/d2/libvfv.a (4); plus libraries built by the project itself (6, 7).
+# Each variant is one executable; the program prints the value its library
+# returns.  Model (documented behaviour): a static-library FILE object is linked
+# as exactly that archive; a shared-library object gives DT_NEEDED + a runnable
+# program; library names as strings are searched in the opts.lib_dir
+# directories in the order given.  Oracle: output of the program, DT_NEEDED,
+# exit status, compared with a hand-written link and with the model.
+
+LIBVAR = {
+    # name: (build.bfg keyword text with {t}=target tag, expected value,
+    #        expects DT_NEEDED libvfv.so / own .so, reference link args)
+    'static-file-libs': (
+        "libs=[static_library('pre/both/libvfv.a')]", '1', False,
+        ['@SRC@/pre/both/libvfv.a']),
+    'static-file-opts-lib': (
+        "link_options=[opts.lib(static_library('pre/both/libvfv.a'))]", '1', False,
+        ['@SRC@/pre/both/libvfv.a']),
+    'static-file-library-kind': (
+        "libs=[library('pre/both/libvfv.a', kind='static')]", '1', False,
+        ['@SRC@/pre/both/libvfv.a']),
+    'static-file-global-link': (
+        None, '1', False, ['@SRC@/pre/both/libvfv.a']),
+    'shared-file-libs': (
+        "libs=[shared_library('pre/both/libvfv.so')]", '2', True,
+        ['-L@SRC@/pre/both', '-lvfv', '-Wl,-rpath,@SRC@/pre/both']),
+    'name-libdir-d1-d2': (
+        "link_options=[opts.lib_dir(directory('pre/d1')), "
+        "opts.lib_dir(directory('pre/d2')), opts.lib('vfv')]", '3', False,
+        ['-L@SRC@/pre/d1', '-L@SRC@/pre/d2', '-lvfv']),
+    'name-libdir-d2-d1': (
+        "link_options=[opts.lib_dir(directory('pre/d2')), "
+        "opts.lib_dir(directory('pre/d1')), opts.lib('vfv')]", '4', False,
+        ['-L@SRC@/pre/d2', '-L@SRC@/pre/d1', '-lvfv']),
+    'static-file-d2-after-libdir-d1': (
+        "link_options=[opts.lib_dir(directory('pre/d1'))], "
+        "libs=[static_library('pre/d2/libvfv.a')]", '4', False,
+        ['-L@SRC@/pre/d1', '@SRC@/pre/d2/libvfv.a']),
+    'built-static': ("libs=[{t}_lib]", '6', False, None),
+    'built-shared': ("libs=[{t}_lib]", '7', True, None),
+}
+LIBVAR_PRE = {'pre/both/libvfv.a': 1, 'pre/both/libvfv.so': 2,
+              'pre/d1/libvfv.a': 3, 'pre/d2/libvfv.a': 4}
+
+
+def gen_libvar(tier, seed):
+    compilers = ['gcc'] if tier == 'quick' else ['gcc', 'clang']
+    rng = core.rng_for(seed, 'c16libvar', tier)
+    n = 0
+    for compiler in compilers:
+        for rep in range(1 if tier == 'quick' else 3):
+            for lang in ('c', 'c++'):
+                names = [k for k in LIBVAR if k != 'static-file-global-link']
+                rng.shuffle(names)
+                n += 1
+                yield {'kind': 'libvar', 'compiler': compiler, 'lang': lang,
+                       'tag': 'v%03d' % n, 'variants': names, 'global': False}
+                n += 1
+                yield {'kind': 'libvar', 'compiler': compiler, 'lang': lang,
+                       'tag': 'v%03d' % n,
+                       'variants': ['static-file-global-link'], 'global': True}
+
+
+def _libvar_main(tag, name, lang):
+    return ('#include <stdio.h>\n#ifdef __cplusplus\nextern "C"\n#endif\n'
+            'int vfv_value(void);\n'
+            'int main(void) { printf("VFP:%s:VARIANT=%%d\\n", vfv_value()); '
+            'return 0; }\n' % tag)
+
+
+def run_libvar(case, res):
+    compiler, lang, ctag = case['compiler'], case['lang'], case['tag']
+    ext = R.LANGS[lang]['ext']
+    cc, c_cc = R.COMPILERS[compiler][lang], R.COMPILERS[compiler]['c']
+    res.evaluations = len(case['variants'])
+    root = core.mkscratch('c16v')
+    src, bld, ref = (os.path.join(root, x) for x in ('src', 'bld', 'ref'))
+    try:
+        os.makedirs(ref)
+        env0 = core.base_env()
+        files = {}
+        for path, val in LIBVAR_PRE.items():
+            files['presrc/v%d.c' % val] = ('int vfv_value(void);\n'
+                                           'int vfv_value(void) { return %d; }\n' % val)
+        tags = {}
+        lines = ['# C16 library-variant project %s' % ctag]
+        if case.get('global'):
+            lines.append("global_link_options([opts.lib("
+                         "static_library('pre/both/libvfv.a'))])")
+        for k, name in enumerate(case['variants']):
+            t = '%s_%d' % (ctag, k)
+            tags[name] = t
+            files[t + '_m' + ext] = _libvar_main(t, name, lang)
+            kw = LIBVAR[name][0]
+            if name.startswith('built-'):
+                val = LIBVAR[name][1]
+                files[t + '_l.c'] = ('int vfv_value(void);\n'
+                                     'int vfv_value(void) { return %s; }\n' % val)
+                lines.append('%s_lib = %s(%s, files=[%s])'
+                             % (t, 'static_library' if name == 'built-static'
+                                else 'shared_library', q(t + '_l'), q(t + '_l.c')))
+            lines.append('executable(%s, files=[%s]%s)'
+                         % (q(t), q(t + '_m' + ext),
+                            ', ' + kw.format(t=t) if kw else ''))
+        files['build.bfg'] = '\n'.join(lines) + '\n'
+        proj.write_tree(src, files)
+        # pre-built third-party libraries (by hand)
+        for path, val in LIBVAR_PRE.items():
+            full = os.path.join(src, path)
+            os.makedirs(os.path.dirname(full), exist_ok=True)
+            o = os.path.join(src, 'presrc', 'v%d.o' % val)
+            core.run([c_cc, '-fPIC', '-c', os.path.join(src, 'presrc', 'v%d.c' % val),
+                      '-o', o], env=env0, timeout=60, check=True)
+            if path.endswith('.a'):
+                core.run(['ar', 'cr', full, o], env=env0, timeout=60, check=True)
+            else:
+                core.run([c_cc, '-shared', '-Wl,-soname,libvfv.so', o, '-o', full],
+                         env=env0, timeout=60, check=True)
+            os.remove(o)
+        env = core.base_env({'CC': c_cc, 'CXX': R.COMPILERS[compiler]['c++']})
+        rc, cout = proj.configure(src, bld, 'make', env=env)
+        res.ev('build:configure')
+        mout = ''
+        if rc == 0:
+            rc2, mout = proj.build(bld, 'make', targets=['all'],
+                                   extra=['-k', '-j%d' % MAKE_JOBS, '-Otarget'],
+                                   env=env, timeout=600)
+            res.ev('build:make')
+
+        def observe(exe, t):
+            ob = {'built': os.path.isfile(exe)}
+            if ob['built']:
+                r, out = core.run([exe], env=env0, timeout=60,
+                                  cwd=os.path.dirname(exe))
+                ob['run_rc'] = r
+                ob['VARIANT'] = R.parse_vfp(out, t).get('VARIANT')
+                r, txt = core.run(['readelf', '-W', '-d', exe], env=env0, timeout=60)
+                needed = re.findall(r'\(NEEDED\)\s+Shared library: \[([^\]]+)\]', txt)
+                ob['needs_lib'] = any(n.startswith(('libvfv', 'lib' + t)) for n in needed)
+            return ob
+
+        for name in case['variants']:
+            t = tags[name]
+            kw, want, want_needed, link = LIBVAR[name]
+            # ---- hand-written reference
+            rdir = os.path.join(ref, t)
+            os.makedirs(rdir)
+            log = []
+
+            def run(argv):
+                r, out = core.run(argv, cwd=rdir, env=env0, timeout=120)
+                log.append({'argv': argv, 'rc': r, 'out': out[-600:]})
+            mo = os.path.join(rdir, 'm.o')
+            run([cc, '-c', os.path.join(src, t + '_m' + ext), '-o', mo])
+            if name == 'built-static':
+                run([c_cc, '-c', os.path.join(src, t + '_l.c'), '-o',
+                     os.path.join(rdir, 'l.o')])
+                run(['ar', 'cr', os.path.join(rdir, 'lib%s_l.a' % t),
+                     os.path.join(rdir, 'l.o')])
+                link = [os.path.join(rdir, 'lib%s_l.a' % t)]
+            elif name == 'built-shared':
+                run([c_cc, '-fPIC', '-c', os.path.join(src, t + '_l.c'), '-o',
+                     os.path.join(rdir, 'l.o')])
+                run([c_cc, '-shared', '-Wl,-soname,lib%s_l.so' % t,
+                     os.path.join(rdir, 'l.o'), '-o',
+                     os.path.join(rdir, 'lib%s_l.so' % t)])
+                link = ['-L' + rdir, '-l%s_l' % t, '-Wl,-rpath,' + rdir]
+            run([cc, mo] + [a.replace('@SRC@', src) for a in link] +
+                ['-o', os.path.join(rdir, t)])
+            res.ev('calibration:reference-build')
+            rob = observe(os.path.join(rdir, t), t)
+            label = 'libvar %s [%s/%s]' % (name, compiler, lang)
+            model = {'built': True, 'run_rc': 0, 'VARIANT': want,
+                     'needs_lib': want_needed}
+            if rob != model:
+                res.exclude('reference-differs-from-model: ' + label)
+                res.ev('calibration:excluded')
+                continue
+            res.ev('libvar:judged')
+            res.ev('subcase:judged')
+            res.ev('lang:' + lang)
+            res.ev('compiler:' + compiler)
+            if name.startswith('static-file') and 'd2' not in name:
+                res.ev('libvar:prebuilt-static-beside-shared')
+            res.key([compiler, lang, 'libvar', name], True)
+            res.classes.add('libvar:' + name)
+            mini = dict(case, variants=[name])
+            base_w = {'compiler': compiler, 'lang': lang, 'opt': 'lib',
+                      'val': name, 'place': 'global_link' if case.get('global')
+                      else 'target', 'variant': name, 'tag': t,
+                      'bfg_text': (kw or 'global_link_options(...)'),
+                      'reference_commands': _cmds(log), '__case__': mini}
+            if rc != 0:
+                errs = [ln for ln in cout.splitlines() if ln.startswith('error:')]
+                res.violate(('configure-failed', 'lib', 'libvar'),
+                            dict(base_w, stage='configure',
+                                 error=(errs or cout.strip().splitlines()[-1:]
+                                        or ['?'])[0][:400]))
+                continue
+            ob = observe(os.path.join(bld, t), t)
+            res.ev('probe:observed-bfg')
+            if res.sample is None:
+                res.sample = {'variant': name, 'compiler': compiler, 'lang': lang,
+                              'reference': rob, 'bfg9000': ob,
+                              'bfg_commands': tag_lines(mout, t, 4)}
+            if ob == model:
+                continue
+            diff = [k for k in model if ob.get(k) != model[k]]
+            wit = dict(base_w, differing=diff, expected={k: model[k] for k in diff},
+                       observed={k: ob.get(k) for k in diff},
+                       bfg_commands=tag_lines(mout, t))
+            if not ob['built']:
+                res.violate(('build-failed', 'lib', name), dict(wit, stage='build'))
+            elif ob.get('needs_lib') != want_needed:
+                res.violate(('wrong-library-linked', name,
+                             'shared-instead-of-static' if ob.get('needs_lib')
+                             else 'static-instead-of-shared'),
+                            dict(wit, stage='probe'))
+            else:
+                res.violate(('wrong-library-linked', name, 'variant'),
+                            dict(wit, stage='probe'))
         return res
     finally:
         core.rmtree(root)
